@@ -58,7 +58,13 @@ func (c16) Cases(tier string, seed int64, kf *KnownFindings) []Case {
 	for i, e := range zoo.Types {
 		cs = append(cs, Case{Kind: "extract", Type: e.Name, Seed: Mix(seed, 900+i), Count: len(c16witness), N: nu, Sub: -1})
 	}
+	for i, e := range zoo.DeepTypes {
+		cs = append(cs, Case{Kind: "extract", Type: e.Name, Seed: Mix(seed, 990+i), Count: len(c16witness), N: nu, Sub: -1})
+	}
 	for _, e := range zoo.Types {
+		cs = append(cs, Case{Kind: "typemapof", Type: e.Name, Count: 1, Sub: -1})
+	}
+	for _, e := range zoo.DeepTypes {
 		cs = append(cs, Case{Kind: "typemapof", Type: e.Name, Count: 1, Sub: -1})
 	}
 	return cs
